@@ -18,6 +18,8 @@ MUTANTS = {
         ('merr-window', 'dashlive/server/requesthandler/manifest_requests.py', "if context['mpd'].now < tm or context['mpd'].now > tm2:", "if context['mpd'].now < tm or context['mpd'].now >= tm2:"),
         ('merr-update', 'dashlive/server/requesthandler/manifest_requests.py', "                if pos != options.updateCount:\n                    continue", "                if pos > options.updateCount:\n                    continue"),
         ('merr-count', 'dashlive/server/requesthandler/manifest_requests.py', "self.increment_error_counter('manifest', code) > options.failureCount", "self.increment_error_counter('manifest', code) > options.failureCount + 1"),
+        ('lget-enc', 'dashlive/server/requesthandler/media_requests.py', "        if representation.encrypted and not options.encrypted:\n            logging.warning('Request for an encrypted stream, when drmSelection is empty')\n            return flask.make_response(\n                'Request for an encrypted stream, when drmSelection is empty', 404)\n        options.update(segmentTimeline=(segment_time is not None))\n        mf = current_media_file", "        options.update(segmentTimeline=(segment_time is not None))\n        mf = current_media_file"),
+        ('lget-badnum-500', 'dashlive/server/requesthandler/media_requests.py', "            logging.warning('Invalid segment number: %s', err)\n            return flask.make_response('Invalid segment number', 404)", "            logging.warning('Invalid segment number: %s', err)\n            raise"),
         ('err-counter-none', 'dashlive/server/requesthandler/base.py', "value = (flask.session.get(key) or 0) + 1", "value = flask.session.get(key, 0) + 1"),
         ('err-count-ge', 'dashlive/server/requesthandler/media_requests.py', "self.increment_error_counter(content_type, code) > options.failureCount", "self.increment_error_counter(content_type, code) >= options.failureCount"),
         ('err-pos-eq', 'dashlive/server/requesthandler/media_requests.py', "            if pos != seg_num:\n                continue\n            if (", "            if pos == seg_num:\n                continue\n            if ("),
